@@ -127,15 +127,17 @@ Fixpoint product (ls : list (list Z)) : list (list Z) :=
   | [] => [[]]
   | l :: r => flat_map (fun x => map (cons x) (product r)) l
   end.
-Fixpoint flat_index (shape idx : list Z) (acc : Z) : Z :=
+(* row-major offset of a multi-index *)
+Fixpoint sizeZ (shape : list Z) : Z := match shape with [] => 1 | l :: r => l * sizeZ r end.
+Fixpoint flat_index (shape idx : list Z) : Z :=
   match shape, idx with
-  | len :: sr, i :: ir => flat_index sr ir (acc * len + i)
-  | _, _ => acc
+  | _ :: sr, i :: ir => i * sizeZ sr + flat_index sr ir
+  | _, _ => 0
   end.
 (* row-major flat offsets of the selected cells, and the shape of the result (int axes dropped) *)
 Definition gather (shape : list Z) (sels : list axsel) : list Z * list Z :=
   (map (fun s => Z.of_nat (length (sel_indices s))) (filter sel_keeps_axis sels),
-   map (fun idx => flat_index shape idx 0) (product (map sel_indices sels))).
+   map (fun idx => flat_index shape idx) (product (map sel_indices sels))).
 
 Definition shift (a : Z) (s : axsel) : axsel :=
   match s with AInt i => AInt (a + i) | ARange x y k => ARange (a + x) (a + y) k end.
